@@ -197,8 +197,10 @@ impl QueryNode {
                 .as_ref()
                 .map(|r| r.pin(chunk_paths.clone()));
 
-            // Check if any shard is in a dual-write split phase (causes duplicate data)
-            let needs_dedup = self.metadata.has_active_split().await.unwrap_or(false);
+            // Check if any shard is in a dual-write split phase (causes duplicate data).
+            // A failed lookup fails the query: answering without de-duplication would
+            // return every double-written row twice.
+            let needs_dedup = self.metadata.has_active_split().await?;
 
             // Map metadata-selected chunks into the logical `metrics` table used by SQL.
             // Execute query with or without adaptive indexing while holding a stable
